@@ -388,16 +388,18 @@ func ShouldRespond(w Watcher, id string, request *discovery.DiscoveryRequest) (b
 		log.Debugf("ADS:%s: INIT/RECONNECT %s %s %s", stype, id, request.VersionInfo, request.ResponseNonce)
 		w.NewWatchedResource(request.TypeUrl, request.ResourceNames)
 		// The new watch may not produce a response (for example SDS for a secret that does not exist yet), and the
-		// client then keeps presenting the last nonce it has for this type on the stream: the one of the watch we
-		// are replacing, or, when that watch is gone because the client had unsubscribed, the one it presents now.
-		// Remember it, otherwise every later change of this subscription would be dropped as an expired nonce.
+		// client then keeps presenting the last nonce it has for this type on the stream. The watcher carries the
+		// last nonce we sent for the type over to the new watch; only when it knows none (first request of the type
+		// on a new stream that presents a nonce of an earlier stream) the nonce the client presents is remembered,
+		// otherwise every later change of this subscription would be dropped as an expired nonce. What we sent
+		// ourselves always wins: a response of the replaced watch may still be on its way to the client.
 		lastNonce := request.ResponseNonce
 		if previousInfo != nil {
 			lastNonce = previousInfo.NonceSent
 		}
 		if lastNonce != "" {
 			w.UpdateWatchedResource(request.TypeUrl, func(wr *WatchedResource) *WatchedResource {
-				if wr != nil {
+				if wr != nil && wr.NonceSent == "" {
 					wr.NonceSent = lastNonce
 				}
 				return wr
